@@ -407,7 +407,7 @@ def cert_corpus(env):
         if got.get('mutation_panics'):
             fails.append(dict(scenario='cert_corpus', args=dict(case='mutation_panics'), expected=dict(panics=0), observed=dict(panics=got['mutation_panics'])))
     return dict(name='cert_corpus', validates='the real certificate verifiers (crypto.rs with webpki / x509-parser / pkcs8) on %d adversarial certificates and %s single-byte mutations: the identity read from an accepted certificate is the key that signed it; a pinned dial accepts only the pinned key in the END-ENTITY position'
-                % (len(cases), got.get('mutations')), cases=len(cases) + int(got.get('mutations') or 0), failed=fails, ok=not fails, props=['C01', 'C03'],
+                % (len(cases), got.get('mutations')), cases=len(cases) + int(got.get('mutations') or 0), failed=fails, ok=not fails, props=['C01', 'C03', 'C14'],
                 clause='the PeerId attributed from a certificate is the Ed25519 key the certificate is self-signed with, whatever else the certificate carries; a dial naming X accepts only a certificate whose own key is X')
 
 
